@@ -448,7 +448,78 @@ fn run_moving_data(t: &mut Tape, ctx: &mut CaseCtx) -> Verdict {
     }
 }
 
+/// v4: a value that has ALREADY been accepted by one typed parameter and is handed on, as a value, to a second one:
+/// through a block-local variable of the outer rule (`y = x` + `asm { emit {y} }`), through a user function
+/// (`pass(x)` with `#fn pass(q) => asm { emit {q} }`), through a sub-rule (`{x: sub}` with `{v: s8} => v` feeding an
+/// outer production `emit`-ed via asm), or textually (`asm { emit {x} }`). The second parameter must judge the VALUE:
+/// accepted iff inside both ranges, emitted as the inner type's two's-complement image.
+fn run_handed_down(t: &mut Tape, ctx: &mut CaseCtx) -> Verdict {
+    let k1 = *t.pick(&[Kind::S, Kind::I, Kind::U]);
+    let n1 = *t.pick(&[4usize, 8, 12, 16]);
+    let k2 = *t.pick(&[Kind::U, Kind::S, Kind::I]);
+    let n2 = *t.pick(&[4usize, 8, 12, 16, 20]);
+    // values at the boundaries of either type
+    let mut bs = boundaries(n1);
+    bs.extend(boundaries(n2));
+    bs.push(BigInt::from(-1));
+    bs.push(BigInt::from(-2));
+    let v = t.pick(&bs).clone() + BigInt::from(t.range(-1, 1));
+    let vtext = if v.is_negative() { if t.flip() { format!("-{}", -&v) } else { format!("(0 - {})", -&v) } } else if t.flip() { format!("{:#x}", v) } else { v.to_string() };
+    let way = t.draw(4);
+    let (outer, extra, wayname) = match way {
+        0 => (format!("    neg {{x: {}{}}} =>\n    {{\n        y = x\n        asm {{ emit {{y}} }}\n    }}", k1.letter(), n1), String::new(), "block-local"),
+        1 => (format!("    neg {{x: {}{}}} => pass(x)", k1.letter(), n1), "#fn pass(q) => asm { emit {q} }\n".to_string(), "function-argument"),
+        2 => (format!("    neg {{x: {}{}}} => asm {{ emit {{x}} }}", k1.letter(), n1), String::new(), "textual"),
+        _ => (
+            format!("    neg {{x: {}{}}} =>\n    {{\n        y = x\n        z = y\n        asm {{ emit2 {{z}}, {{y}} }}\n    }}\n    emit2 {{a: {}{}}}, {{b}} => a", k1.letter(), n1, k2.letter(), n2),
+            String::new(),
+            "block-local-twice",
+        ),
+    };
+    let src = format!("#ruledef\n{{\n    emit {{v: {}{}}} => v\n{}\n}}\n{}#d8 0x5a\nneg {}\n#d8 0xa5\n", k2.letter(), n2, outer, extra, vtext);
+    ctx.nontrivial = true;
+    ctx.set_hash_str(&src);
+    ctx.label(format!("handed-down:{}", wayname));
+    ctx.render(|| json!({"source": src, "value": v.to_string()}));
+    let inside = in_range(k1, n1, &v) && in_range(k2, n2, &v);
+    ctx.label(if inside { "handed-down:in-both-ranges" } else if in_range(k1, n1, &v) { "handed-down:outer-accepts-inner-must-reject" } else { "handed-down:outer-rejects" });
+    ctx.evals += 1;
+    let out = sut::assemble_src(&src, &Opts::default());
+    let fail = |c: &str, d: String, ctx: &mut CaseCtx| {
+        ctx.want_render = true;
+        ctx.render(|| json!({"source": src, "value": v.to_string()}));
+        Verdict::fail(format!("{}|handed-down-to-{}|{}", pred(k1, n1), pred(k2, n2), c), d)
+    };
+    match (&out, inside) {
+        (AsmOutcome::Panic(p), _) => fail(&format!("panic {}", sut::panic_site(p)), p.clone(), ctx),
+        (AsmOutcome::Ok(ok), true) => {
+            if ok.bits.len() != 16 + n2 {
+                return fail("output-length", format!("{} bits, expected {}", ok.bits.len(), 16 + n2), ctx);
+            }
+            let want = mod_pow2(&v, n2);
+            let mut got = BigInt::zero();
+            for b in 0..n2 {
+                got = got * 2 + BigInt::from(ok.bits[8 + b] as u8);
+            }
+            if got != want {
+                return fail("wrong-bits", format!("`neg {}` ({}): emitted {:#x}, expected {:#x}", vtext, wayname, got, want), ctx);
+            }
+            Verdict::Pass
+        }
+        (AsmOutcome::Ok(ok), false) => fail(
+            "out-of-range-accepted",
+            format!("`neg {}` ({}): {} is outside {}{} or {}{}: accepted, output {}", vtext, wayname, v, k1.letter(), n1, k2.letter(), n2, sut::bits_hex(&ok.bits)),
+            ctx,
+        ),
+        (_, true) => fail("in-range-rejected", format!("`neg {}` ({}): {} is inside {}{} and {}{}: {}", vtext, wayname, v, k1.letter(), n1, k2.letter(), n2, out.brief()), ctx),
+        (_, false) => Verdict::Pass,
+    }
+}
+
 fn run_moving_value(t: &mut Tape, ctx: &mut CaseCtx) -> Verdict {
+    if crate::engine::gen_version() >= 4 && t.chance(1, 3) {
+        return run_handed_down(t, ctx);
+    }
     if crate::engine::gen_version() >= 3 && t.chance(1, 3) {
         return run_moving_data(t, ctx);
     }
